@@ -24,7 +24,9 @@ func sendTimes(n *simnet.Net, sink int) map[int]int64 {
 	for _, e := range n.Ledger {
 		if e.Dir == "tx" && e.Sink == sink && e.P != nil {
 			if _, dup := m[int(e.P.TTL)]; !dup {
-				m[int(e.P.TTL)] = e.T
+				// the instant the probe was handed to the network = the instant of the send call (a call that waits for
+				// buffer space returns later; the drivers take their send time before it)
+				m[int(e.P.TTL)] = e.CallT
 			}
 		}
 	}
